@@ -263,6 +263,33 @@ Loop:
 	return nil
 }
 
+// failFrags completes, with an error, every request that still has a fragment on the backend
+// connection s which is being closed - written and waiting for its reply, or queued and not yet
+// written - and delivers what thereby became deliverable. Nobody else will ever answer them.
+func (el *eventloop) failFrags(s *conn) {
+	for _, q := range []*FragQueue{s.inFragQueue, s.outFragQueue} {
+		if q == nil {
+			continue
+		}
+		for f := q.head; f != nil; f = f.prev {
+			if f.Owner == nil || f.Peer == nil || f.Done {
+				continue
+			}
+			msg := f.Peer
+			msg.Error = codec.ErrUnKnownProxyPoolConnError
+			msg.FragDoneNumber = len(msg.Body)
+			msg.RspBody = append(msg.RspBody[:0], msg.Error.Bytes()...)
+			msg.Done = true
+			for _, v := range msg.Body {
+				v.Done = true
+			}
+			if oc, ok := f.Owner.(*conn); ok && oc.opened {
+				el.flushDone(oc)
+			}
+		}
+	}
+}
+
 // flushDone writes the replies of the completed requests at the head of c's queue to the client,
 // in request order, and releases them. A completed reply is never held back by younger requests
 // that are still waiting for their backends.
@@ -394,6 +421,7 @@ func (el *eventloop) closeConn(c *conn, err error, closeType ConnCloseType) (rer
 			GlobalStats.ClientConnectionsClientErr.WithLabelValues().Inc()
 		}
 	case ConnServer:
+		el.failFrags(c)
 		el.eventHandler.OnSClosed(c, err)
 		el.addSConn(-1)
 		switch closeType {
